@@ -218,6 +218,16 @@ func (sum *Summary) account(spec RunSpec, v *Verdict) {
 		sum.MapSites[k] += n
 	}
 	sum.Workloads[spec.Workload]++
+	switch {
+	case spec.Choices != nil:
+		sum.Strategies["fixed-choice-vector (sweep / replay / baseline)"]++
+	case spec.P("free", 0) == 1:
+		sum.Strategies["free mode (race detector, uncontrolled schedule)"]++
+	case spec.Sim.PCTDepth > 0:
+		sum.Strategies[fmt.Sprintf("pct depth %d", spec.Sim.PCTDepth)]++
+	default:
+		sum.Strategies["random walk"]++
+	}
 }
 
 func workerRun(t *testing.T, job Job, sum *Summary) {
